@@ -6,9 +6,9 @@ set -uo pipefail
 MD=$1; DEST=$2; RUN=$3; shift 3
 WT=${CONF_WT:-/tmp/wt-confirm}
 export GOFLAGS=-mod=mod GOPROXY=off
-if [ ! -d "$WT" ]; then git -C /repo worktree add -q --detach "$WT" f91f59d; fi
+if [ ! -d "$WT" ]; then git -C /repo worktree add -q --detach "$WT" ${CONF_BASE:-f91f59d}; fi
 git -C "$WT" reset -q --hard && git -C "$WT" clean -fdq
-git -C "$WT" checkout -q --detach f91f59d
+git -C "$WT" checkout -q --detach ${CONF_BASE:-f91f59d}
 git -C "$WT" apply "$MD/patch.diff" || { echo "patch does not apply on the agents' base commit"; exit 3; }
 cd "$WT"
 go build ./... || { echo "BUILD FAILS"; exit 3; }
